@@ -56,7 +56,8 @@ def check_update(case, out, backends, rng=None):
     dup = any(len(v) > 1 for v in contrib.values())
     if dup:
         out.count("cases_with_duplicates")
-    risk = "+".join(risk_tags(case))
+    from ..gen.cases import risk as _risk
+    risk = _risk(case)
     for b in backends:
         tensors = [np.array(t, copy=True) for t in case.tensors]
         if rng is not None and rng.random() < 0.4:
